@@ -420,3 +420,35 @@ def judge(case, impl):
 
 def compare(case, impl, model):
     return impl == model
+
+
+# ---- extraction cross-check: the same cases evaluated inside Coq by vm_compute
+from tools import xenc
+COQ_IMPORTS = 'Base.XEnc Base.Str Model.Poly Model.Parse'
+XCHECK_N = 200
+
+
+def coq_term(case):
+    t = xenc.Toks(case.line)
+    cmd = t.word()
+    s = t.cpstr()
+    if cmd == 'classes':
+        return xenc.CQ_CLASSES % xenc.cq_str(s)
+    # crc thinning below XCHECK_N: every class of the generator is represented, the long inputs included
+    if not xenc.keep(case, 2 if case.cls in ('bigexp', 'long') else 3000 if case.cls.startswith('exh') else 60 if case.cls == 'mutation' else 400):
+        return None
+    if cmd == 'simple':
+        # x^65535 makes a 65536-element coefficient list: fine for the executable, beyond the stack of Coq's VM
+        if re.search(r'\^[^+\-]*\d{4}', ''.join(chr(c) for c in s)):
+            return None
+        return 'enc_res %s (@parse_simple float FNum uclass_tab %s)' % (xenc.CQ_ENC_SPOLY, xenc.cq_str(s))
+    if cmd == 'inter':
+        return 'enc_res %s (@parse_inter float FNum uclass_tab %s)' % (xenc.CQ_ENC_IPOLY, xenc.cq_str(s))
+    return None
+
+
+def encode_result(case, model_line):
+    cmd = case.line.split(' ', 1)[0]
+    if cmd == 'classes':
+        return xenc.enc_classes_line(model_line)
+    return xenc.enc_line(model_line, xenc.enc_spoly_toks if cmd == 'simple' else xenc.enc_ipoly_toks)
